@@ -54,6 +54,8 @@ pub fn load_braid(name: &str) -> Option<(usize, Vec<i32>)> {
 }
 
 pub fn to_link(pd: &PD) -> Link {
+    // the public PD-code constructor whenever the diagram has no switched crossing (every monitor goes through it)
+    if pd.neg.iter().all(|b| !b) { return Link::from_pd_code(pd.x.iter().cloned()) }
     Link::new(pd.x.iter().zip(pd.neg.iter()).map(|(c, &neg)| Crossing::new(if neg { CrossingType::Xm } else { CrossingType::X }, *c)).collect())
 }
 
